@@ -37,6 +37,9 @@ type Req struct {
 	Restart bool   `json:",omitempty"` // no request: the process restarts - a new instance of the middleware on the same external storage (memory: ignored)
 }
 
+// noStore: the request carries the no-store directive (every other generated Cache-Control value carries no-cache)
+func (r Req) noStore() bool { return strings.Contains(strings.ToLower(r.CC), "no-store") }
+
 type Case struct {
 	Store        string // memory | vk
 	Park         bool   `json:",omitempty"` // schedule policy: the first concurrent request parks inside its origin handler until the others are done
@@ -350,7 +353,7 @@ func (m *model) seqStep(w *world, r Req, i int, phase string) string {
 		return ctx + ": not a hit but the origin handler did not run"
 	}
 	cur := w.lastExec(r)
-	if r.CC == "no-store" {
+	if r.noStore() {
 		return "" // bypasses the cache entirely: nothing dropped, nothing stored
 	}
 	if !w.methodCached(r.Method) {
@@ -499,7 +502,7 @@ func check(c Case) vk.Verdict {
 		}
 		// after the phase every cacheable execution of the phase may be the live entry of its key
 		for _, r := range c.Conc {
-			if !w.methodCached(r.Method) || r.CC == "no-store" {
+			if !w.methodCached(r.Method) || r.noStore() {
 				continue
 			}
 			k := w.key(r)
@@ -543,7 +546,9 @@ func check(c Case) vk.Verdict {
 func genReq(t *rapid.T, c Case) Req {
 	r := Req{Method: rapid.SampledFrom([]string{"GET", "GET", "GET", "HEAD", "POST"}).Draw(t, "m"),
 		Path: rapid.SampledFrom([]string{"/a", "/b", "/c"}).Draw(t, "p"), V: rapid.SampledFrom([]string{"1", "1", "2"}).Draw(t, "v"),
-		CC:  rapid.SampledFrom([]string{"", "", "", "", "no-cache", "no-store"}).Draw(t, "cc"),
+		CC: rapid.SampledFrom([]string{"", "", "", "", "", "", "", "", "no-cache", "no-cache", "no-store", "no-store",
+			// directive names are case-insensitive, and a list needs no blank after the comma (RFC 9111 5.2, RFC 9110 5.6.1)
+			"No-Cache", "NO-STORE", "max-age=0,no-cache", "no-cache,no-store", "max-age=0, no-store"}).Draw(t, "cc"),
 		Inv: rapid.IntRange(0, 5).Draw(t, "inv") == 0, TTL0: rapid.IntRange(0, 3).Draw(t, "ttl0") == 0}
 	if c.UseNext {
 		r.Skip = rapid.IntRange(0, 4).Draw(t, "skip") == 0
